@@ -61,6 +61,8 @@ type scenario struct {
 	Crashes  int
 	Why      string
 	InitAuto bool
+	// MixedHash: handles are opened with different hash ids (the open-on-clone check would need to guess one)
+	MixedHash bool
 }
 
 // txn builds the small transaction with the given id. Every transaction touches
@@ -192,7 +194,11 @@ func (sc *scenario) build(prop string) (*mc.Scenario, error) {
 			ms.ref = monitor.NewRefinement(prop, sc.Cfg, m0.Clone())
 			w.Monitors = append(w.Monitors, ms.ref)
 		case "C05":
-			w.Monitors = append(w.Monitors, &monitor.ListIntegrity{Prop: prop, HashID: hashName(sc.Cfg), Cfg: sc.Cfg, CheckOpen: true})
+			li := &monitor.ListIntegrity{Prop: prop, HashID: hashName(sc.Cfg), Cfg: sc.Cfg, CheckOpen: true}
+			if sc.Init == "empty" {
+				li.HashID = "" // decided by the first committed table
+			}
+			w.Monitors = append(w.Monitors, li)
 		case "C08":
 			w.Monitors = append(w.Monitors, &monitor.Lock{Prop: prop})
 		case "C10":
